@@ -5,6 +5,7 @@ Case = {"src": "values"|"optional"|"bgp"|"empty", "vars": [names], "rows": [[ter
               "group": None | [name | ["as", E, alias] …], "having": None | E, "order": [[E, desc] …],
               "limit": None|n, "offset": None|n}}
 termdesc = ["I", n] | ["I", n, "int"|…] | ["D", m, s] | ["F", m, s] (double) | ["F", m, s, "float"] | ["B", 0|1] | ["S", text, lang] | ["U", local] | ["N", label]
+         | ["T", y, mo, d, h, mi, s, tz minutes|None] (xsd:dateTime) | ["Y", y, mo, d] (xsd:date)
 E = ["v", name] | ["c", termdesc] | ["+", E, E] | ["-", E, E] | ["cmp", op, E, E]
   | ["agg", kind, distinct, "*"|E, sep|None]
 
@@ -70,8 +71,24 @@ def dec_lex(m, s):
     return sign + (digs[:-s] + "." + digs[-s:] if s else digs)
 
 
+def time_lex(d):
+    """the lexical form of a ["T", …] / ["Y", …] termdesc — the canonical one (what isoformat() writes: `+00:00`, never `Z`),
+    so that the term is the same whether rdflib meets it in the query text or in the graph"""
+    if d[0] == "Y":
+        return "%04d-%02d-%02d" % tuple(d[1:4])
+    tz = d[7]
+    z = "" if tz is None else "%s%02d:%02d" % ("-" if tz < 0 else "+", abs(tz) // 60, abs(tz) % 60)
+    return "%04d-%02d-%02dT%02d:%02d:%02d" % tuple(d[1:7]) + z
+
+
+def time_dt(d):
+    return "date" if d[0] == "Y" else "dateTime"
+
+
 def mk_term(d):
     k = d[0]
+    if k in "TY":
+        return Literal(time_lex(d), datatype=URIRef(XS + time_dt(d)))
     if k == "I":
         return Literal(str(d[1]), datatype=URIRef(XS + (d[2] if len(d) > 2 else "integer")))
     if k == "D":
@@ -91,6 +108,8 @@ def mk_term(d):
 
 def sparql_term(d):
     k = d[0]
+    if k in "TY":
+        return f'"{time_lex(d)}"^^<{XS}{time_dt(d)}>'
     if k == "I":
         return str(d[1]) if len(d) == 2 else f'"{d[1]}"^^<{XS}{d[2]}>'
     if k == "D":  # (rdflib's parser cannot read a negative DECIMAL token: not this property's business)
@@ -111,6 +130,8 @@ def sparql_term(d):
 def lex_of(d):
     """STR() of an input term"""
     k = d[0]
+    if k in "TY":
+        return time_lex(d)
     if k == "I":
         return str(d[1])
     if k == "D":
@@ -135,6 +156,10 @@ def tok(d):
     if d is None:
         return "-"
     k = d[0]
+    if k == "T":
+        return "T." + ".".join(str(x) for x in d[1:7]) + "." + ("-" if d[7] is None else str(d[7]))
+    if k == "Y":
+        return "Y." + ".".join(str(x) for x in d[1:4])
     if k == "I":
         return f"I.{d[2] if len(d) > 2 else 'integer'}.{d[1]}"
     if k == "D":
@@ -156,6 +181,8 @@ def canon_desc(d):
     if d is None:
         return "-"
     k = d[0]
+    if k in "TY":
+        return f"T:{time_dt(d)}:{time_lex(d)}"
     if k == "I":
         return f"Q:{d[2] if len(d) > 2 else 'integer'}:{d[1]}/1"
     if k == "D":
@@ -205,6 +232,8 @@ def canon_term(t):
                 return "L:" + t.n3()
         if dt == XS + "boolean" and t.value is not None:
             return f"B:{int(bool(t.value))}"
+        if dt in (XS + "dateTime", XS + "date") and t.value is not None:
+            return f"T:{dt[len(XS):]}:{str(t)}"
         if dt is None:
             return f"S:{str(t)}@{(t.language or '').lower()}"
         return "L:" + t.n3()
@@ -226,6 +255,11 @@ def canon_tok(tk):
         return "S:%s@%s" % (uncps(lex), uncps(lang))
     if k in "UN":
         return k + ":" + uncps(rest)
+    if k == "T":
+        f = rest.split(".")
+        return canon_desc(["T"] + [int(x) for x in f[:6]] + [None if f[6] == "-" else int(f[6])])
+    if k == "Y":
+        return canon_desc(["Y"] + [int(x) for x in rest.split(".")])
     return "?" + tk
 
 
@@ -433,6 +467,15 @@ def num_cell(dt, f):
     return f"Q:{dt}:{f.numerator}/{f.denominator}"
 
 
+def time_of(c):
+    """(aware?, datetime) of an xsd:dateTime cell, else None"""
+    if c.startswith("T:dateTime:"):
+        import datetime
+        v = datetime.datetime.fromisoformat(c[len("T:dateTime:"):])
+        return v.tzinfo is not None, v
+    return None
+
+
 def spec_lt(a, b):
     """SPARQL 15.1: True/False where the order of the two keys is fixed, None where it is left open"""
     ra, rb = cell_rank(a), cell_rank(b)
@@ -452,14 +495,20 @@ def spec_lt(a, b):
             return a[2:-1] < b[2:-1]
         if a.startswith("B:") and b.startswith("B:"):
             return a < b
-    return None  # blank nodes among themselves, language strings, mixed literal classes …
+        ta, tb = time_of(a), time_of(b)
+        if ta and tb and ta[0] == tb[0]:  # op:dateTime-less-than; one with and one without timezone: indeterminate
+            return ta[1] < tb[1]
+    return None  # blank nodes among themselves, language strings, mixed literal classes, xsd:date …
 
 
 def spec_same(a, b):
     if a == b:
         return True
     na, nb = num_of(a), num_of(b)
-    return bool(na and nb and na[1] == nb[1])
+    if na and nb and na[1] == nb[1]:
+        return True
+    ta, tb = time_of(a), time_of(b)  # one instant written with two UTC offsets
+    return bool(ta and tb and ta[0] and tb[0] and ta[1] == tb[1])
 
 
 def precedes(ka, kb, descs):
@@ -502,6 +551,11 @@ class Ev:
         na, nb = num_of(a), num_of(b)
         if na and nb:
             x, y = na[1], nb[1]
+            r = {"<": x < y, ">": x > y, "=": x == y, "!=": x != y, "<=": x <= y, ">=": x >= y}[op]
+            return {f"B:{int(r)}"}
+        ta, tb = time_of(a), time_of(b)
+        if ta and tb and ta[0] == tb[0]:  # two xsd:dateTime, both with or both without timezone
+            x, y = ta[1], tb[1]
             r = {"<": x < y, ">": x > y, "=": x == y, "!=": x != y, "<=": x <= y, ">=": x >= y}[op]
             return {f"B:{int(r)}"}
         if op in ("=", "!="):
@@ -938,6 +992,9 @@ def run_impl(case):
              "group_by_expr_as": int(any(e is not None and n is not None for n, e in group_items(q))),
              "order_by_unselected_key": int(any(e[0] == "v" and e[1] in [n for n, _ in group_items(q)] and
                                                 ["v", e[1]] not in q["proj"] for e, _d in q["order"]))}
+    ntime = sum(1 for r in case["rows"] for c in r if c is not None and c[0] in "TY")
+    stats["cases_with_dateTime_or_date"] = int(ntime > 0)
+    stats["temporal_cells"] = ntime
     for p in q["proj"]:
         for a in _aggs_in(p[1] if p[0] == "e" else None):
             stats["agg_" + a[1] + ("_distinct" if a[2] else "")] = stats.get("agg_" + a[1] + ("_distinct" if a[2] else ""), 0) + 1
@@ -1134,6 +1191,21 @@ DBLS = [(15, 1), (25, 2), (20, 1), (-10, 1)]
 STRS = ["", "a", "b", "ab", "B", "10", "a"]
 IRIS = ["a", "b", "A", "r0"]
 BNS = ["b1", "b2"]
+# xsd:dateTime: without / with timezone, one instant under several UTC offsets (2020-01-01T00:00Z four ways), offsets that
+# move the instant into another day / month / year, leap days, the same local time with and without timezone
+DTS = [(2020, 1, 1, 0, 0, 0, None), (2020, 1, 1, 0, 0, 0, 0), (2020, 1, 1, 5, 30, 0, 330), (2019, 12, 31, 23, 0, 0, -60),
+       (2019, 12, 31, 10, 0, 0, -840), (2019, 12, 31, 23, 0, 0, None), (2020, 2, 29, 12, 0, 0, None), (2020, 3, 1, 0, 0, 0, None),
+       (2020, 3, 1, 0, 0, 0, 60), (2020, 2, 29, 23, 30, 0, 0), (1999, 12, 31, 23, 59, 59, 0), (2000, 1, 1, 0, 0, 0, None),
+       (2021, 1, 1, 0, 0, 1, -840), (1900, 3, 1, 0, 0, 0, None), (1900, 2, 28, 23, 59, 59, None), (2020, 1, 1, 0, 0, 0, -1),
+       (2020, 1, 1, 0, 1, 0, 0), (1, 1, 1, 0, 0, 0, None), (9999, 12, 31, 23, 59, 59, 0)]
+DATES = [(2020, 1, 1), (2019, 12, 31), (2020, 2, 29), (2020, 3, 1), (2000, 1, 1), (1900, 3, 1), (1900, 2, 28), (2100, 2, 28),
+         (2100, 3, 1), (2020, 12, 31), (2021, 1, 1)]
+
+
+def gen_time(rng, small=False):
+    if rng.random() < 0.25:
+        return ["Y"] + list(rng.choice(DATES[:3] if small else DATES))
+    return ["T"] + list(rng.choice(DTS[:5] if small else DTS))
 
 
 def gen_term(rng, profile, bn_ok):
@@ -1154,9 +1226,17 @@ def gen_term(rng, profile, bn_ok):
         if r < 0.85:
             return ["S", rng.choice(STRS), ""]
         return ["S", rng.choice(["a", "b"]), rng.choice(["en", "fr"])]
+    if profile == "time":  # xsd:dateTime / xsd:date, now and then something else
+        if r < 0.85:
+            return gen_time(rng)
+        return rng.choice([["I", 1], ["D", 15, 1], ["S", "2020-01-01", ""], ["B", 1], ["U", "a"], ["F", 15, 1]])
     if profile == "key":  # few distinct values, for grouping
+        if r < 0.15:
+            return gen_time(rng, True)
         return rng.choice([["I", 1], ["I", 2], ["S", "a", ""], ["U", "a"], ["I", 1], ["D", 10, 1], ["S", "", ""], ["B", 0]])
     # mixed
+    if r < 0.06:
+        return gen_time(rng)
     if r < 0.25:
         return ["I", rng.choice(INTS)]
     if r < 0.4:
@@ -1182,7 +1262,7 @@ def gen_case(rng, tier, i):
     src = rng.choice(["values"] * 5 + ["optional"] * 3 + ["bgp"] * 2 + ["empty"])
     nv = rng.choice([1, 2, 2, 3, 3])
     names = ["a", "b", "c"][:nv]
-    profiles = [rng.choice(["int", "num", "num", "str", "key", "key", "mixed", "mixed"]) for _ in names]
+    profiles = [rng.choice(["int", "num", "num", "str", "key", "key", "mixed", "mixed", "time"]) for _ in names]
     nrows = 0 if src == "empty" else rng.choice([0, 1, 2, 3, 4, 5, 6, 7, 8, 9]) if src == "values" else rng.randint(1, 8)
     p_unbound = 0.0 if src == "bgp" else rng.choice([0, 0.1, 0.25, 0.5])
     rows = []
@@ -1240,7 +1320,7 @@ def gen_const(rng):
 
 def gen_key_const(rng):
     return rng.choice([["I", 1], ["I", 2], ["S", "a", ""], ["U", "a"], ["D", 10, 1], ["S", "", ""], ["B", 0], ["U", "b"], ["I", 0],
-                       ["S", "b", ""], ["B", 1]])
+                       ["S", "b", ""], ["B", 1], ["T"] + list(DTS[1]), ["T"] + list(DTS[0]), ["Y"] + list(DATES[0])])
 
 
 def gen_agg(rng, names, profiles):
@@ -1418,7 +1498,7 @@ MATCHERS = {"order_derived_numeric": _m_order_derived}
 
 XSD_NUMERIC_NAMES = ["integer", "decimal", "float", "double", "byte", "int", "long", "negativeInteger", "nonNegativeInteger",
                      "nonPositiveInteger", "positiveInteger", "short", "unsignedByte", "unsignedInt", "unsignedLong", "unsignedShort"]
-TABLE_DT_NAMES = XSD_NUMERIC_NAMES[:4] + sorted(XSD_NUMERIC_NAMES[4:] + ["boolean", "string"])
+TABLE_DT_NAMES = XSD_NUMERIC_NAMES[:4] + sorted(XSD_NUMERIC_NAMES[4:] + ["boolean", "string", "date", "dateTime"])
 
 
 def TABLES():
@@ -1446,18 +1526,20 @@ def TABLES():
             raise ValueError(f"type_promotion({a}, {b}) = {r}: outside the table's datatypes")
         return r[len(XS):]
 
+    WELL = {"date": ("2020-01-01",), "dateTime": ("2020-01-01T00:00:00",)}  # a well-typed lexical form per datatype
+
     def acc(n):
         try:
-            numeric(Literal("1", datatype=U(n)))
+            numeric(Literal(WELL.get(n, ("1",))[0], datatype=U(n)))
             return True
         except SPARQLError:
             return False
 
     def numeric_term(n):  # compared in value space with other numeric datatypes?
         other = U("decimal" if n == "integer" else "integer")
-        for lex in ("1", "-1"):  # a lexical form that is well-typed for n
+        for lex in WELL.get(n, ("1", "-1")):  # a lexical form that is well-typed for n
             try:
-                if Literal(lex, datatype=U(n)).eq(Literal(lex, datatype=other)) is True:
+                if Literal(lex, datatype=U(n)).eq(Literal("1" if n in WELL else lex, datatype=other)) is True:
                     return True
             except TypeError:
                 pass
@@ -1494,7 +1576,7 @@ def TABLES():
     L = ["/- GENERATED on every run by harness/c08.py TABLES() by PROBING the live rdflib: type_promotion(t1, t2) on all",
          "   pairs, operators.numeric, Literal.eq, evalutils._val, one query per aggregate — do not edit. -/",
          "namespace RV.C08", "",
-         "/-- the XSD numeric datatypes, plus boolean and string -/",
+         "/-- the XSD numeric datatypes, plus boolean, string, date and dateTime -/",
          "inductive DT", "  " + " ".join("| " + n for n in names), "  deriving DecidableEq, Repr", "",
          "def DT.all : List DT := [" + ", ".join("." + n for n in names) + "]", "",
          "def DT.name : DT → String"] + [f'  | .{n} => "{n}"' for n in names] + ["",
